@@ -49,6 +49,10 @@ pub struct RegEntry {
     pub ptr: usize,
     pub extent: usize, // len for Bytes, capacity for BytesMut/Vec
     pub task: usize,
+    /// the owning task is inside a call that may give the storage up half-way (a growing
+    /// reserve / extend / unsplit releases its reference before the call returns): the entry
+    /// says nothing until the call is over and `refresh` has run
+    pub busy: bool,
 }
 pub static REGISTRY: Mutex<Vec<RegEntry>> = Mutex::new(Vec::new());
 static NEXT_ID: Mutex<u64> = Mutex::new(1);
@@ -61,7 +65,7 @@ fn reg_add(storage: usize, ptr: usize, extent: usize, task: usize) -> u64 {
         let mut n = NEXT_ID.lock().unwrap();
         let id = *n;
         *n += 1;
-        REGISTRY.lock().unwrap().push(RegEntry { id, storage, ptr, extent, task });
+        REGISTRY.lock().unwrap().push(RegEntry { id, storage, ptr, extent, task, busy: false });
         id
     })
 }
@@ -82,6 +86,19 @@ fn reg_update(id: u64, ptr: usize, extent: usize) {
             if e.id == id {
                 e.ptr = ptr;
                 e.extent = extent;
+                e.busy = false;
+            }
+        }
+    })
+}
+fn reg_busy(id: u64) {
+    if !plat::BOOKKEEPING {
+        return;
+    }
+    plat::untracked(|| {
+        for e in REGISTRY.lock().unwrap().iter_mut() {
+            if e.id == id {
+                e.busy = true;
             }
         }
     })
@@ -90,7 +107,7 @@ fn reg_others_on(storage: &StorageInfo, except: u64) -> Vec<RegEntry> {
     if !plat::BOOKKEEPING {
         return Vec::new();
     }
-    plat::untracked(|| REGISTRY.lock().unwrap().iter().filter(|e| e.id != except && e.extent > 0 && e.ptr >= storage.base && e.ptr < storage.base + storage.size && storage.size > 0).copied().collect())
+    plat::untracked(|| REGISTRY.lock().unwrap().iter().filter(|e| e.id != except && !e.busy && e.extent > 0 && e.ptr >= storage.base && e.ptr < storage.base + storage.size && storage.size > 0).copied().collect())
 }
 
 // ------------------------------------------------------------------ storages and handles
@@ -167,7 +184,16 @@ impl Drop for OwnerBuf {
 
 static STATIC_BYTES: [u8; 64] = *b"0123456789abcdefghijklmnopqrstuvwxyzABCDEFGHIJKLMNOPQRSTUVWXYZ+/";
 
-pub const REPRS: &[&str] = &["vec_exact", "vec_exact_adv", "vec_spare", "bm_frozen", "bm_split_frozen", "bm_off_frozen", "owner", "static", "bm_halves"];
+pub const REPRS: &[&str] = &["vec_exact", "vec_exact_adv", "vec_spare", "bm_frozen", "bm_split_frozen", "bm_off_frozen", "owner", "static", "bm_halves", "owner_inline"];
+
+/// An owner without drop glue whose bytes live inside the crate's own control block: the
+/// deallocation of that block is the only event the readers have to happen-before.
+pub struct InlineOwner(pub [u8; 48], pub usize);
+impl AsRef<[u8]> for InlineOwner {
+    fn as_ref(&self) -> &[u8] {
+        &self.0[..self.1]
+    }
+}
 
 pub const TASK_OPS: &[&str] = &[
     "clone_shared", "clone", "read", "slice", "split_off", "split_to", "truncate", "advance", "drop", "try_into_mut", "into_mut", "into_vec",
@@ -211,7 +237,7 @@ pub fn gen_program_f(rng: &mut Rng, focus: bool) -> J {
         let repr = match family {
             "promotion" => *rng.pick(&["vec_exact", "vec_exact_adv", "vec_exact_adv", "bm_frozen", "bm_off_frozen"]),
             "reclaim" => *rng.pick(&["bm_halves", "bm_halves", "bm_split_frozen"]),
-            _ if focus => *rng.pick(&["vec_exact", "vec_exact_adv", "vec_spare", "bm_frozen", "bm_split_frozen", "bm_off_frozen", "owner", "bm_halves", "bm_split_frozen"]),
+            _ if focus => *rng.pick(&["vec_exact", "vec_exact_adv", "vec_spare", "bm_frozen", "bm_split_frozen", "bm_off_frozen", "owner", "bm_halves", "bm_split_frozen", "owner_inline"]),
             _ => *rng.pick(REPRS),
         };
         storages.push(J::obj().set("repr", repr).set("n", *rng.pick(&[1usize, 2, 8, 9, 24, 33, 64])).set("seed", rng.next_u64()).set("extra", rng.range(0, 32)));
@@ -541,6 +567,9 @@ pub fn run_ops(ctx: &Ctx, hs: &mut Vec<H>, ops: &[J]) {
                     2 => c0 + 1,
                     _ => a,
                 };
+                if name != "try_reclaim" {
+                    reg_busy(hs[i].reg);
+                }
                 let grew = match hs[i].real.as_mut() {
                     Some(Real::M(m)) => match name {
                         "reserve" => {
@@ -592,6 +621,7 @@ pub fn run_ops(ctx: &Ctx, hs: &mut Vec<H>, ops: &[J]) {
                 let om = std::mem::take(&mut hs[j].model);
                 let (p0, _l, c0) = view(hs[i].real.as_ref().unwrap());
                 plat::note_access(p0, c0, true, "unsplit into own BytesMut region");
+                reg_busy(hs[i].reg);
                 if let Some(Real::M(m)) = hs[i].real.as_mut() {
                     plat::track(|| m.unsplit(other));
                 }
@@ -685,6 +715,15 @@ fn build_storage(idx: usize, spec: &J) -> (Vec<H>, StorageInfo) {
             info = StorageInfo { idx, base: b.as_ptr() as usize, size: n, heap: false };
             let p = b.as_ptr() as usize;
             out.push(H::new(Real::B(b), data, idx, Some(p), 0));
+        }
+        "owner_inline" => {
+            let m = n.min(48);
+            let mut arr = [0u8; 48];
+            arr[..m].copy_from_slice(&data[..m]);
+            let b = plat::track(|| Bytes::from_owner(InlineOwner(arr, m)));
+            info = StorageInfo { idx, base: b.as_ptr() as usize, size: m, heap: false };
+            let p = b.as_ptr() as usize;
+            out.push(H::new(Real::B(b), data[..m].to_vec(), idx, Some(p), 0));
         }
         "vec_exact" => {
             let b = plat::track(|| Bytes::from(data.clone().into_boxed_slice()));
